@@ -8,8 +8,9 @@
               os.Rename (the commit; on Linux it replaces an existing blob file) ;
               graph.index under the graph lock (Successors re-reads the blob file) ;
               for manifests tagResolver.Tag(desc, digest) under the resolver lock
-     Tag    = validateReference ; Exists (stat) ; tagResolver.Tag(desc, digest) unless the
-              reference is that digest ; tagResolver.Tag(desc, reference) (the commit)
+     Tag    = validateReference ; digest-form references must be desc's own ; Exists (stat) ;
+              for a manifest media type graph.Index(desc) ; tagResolver.Tag(desc, digest) unless
+              the reference is that digest ; tagResolver.Tag(desc, reference) (the commit)
      Untag  = tagResolver.Resolve + digest check ; tagResolver.Untag (the commit)
      Fetch / Exists / Resolve / Predecessors / Tags = atomic reads
    (saveIndex / index.json: C08, C10.)  Ghost components as in Model/StoresConc.v. *)
@@ -20,6 +21,7 @@ Inductive opc :=
 | OPush2 (d : desc) (c : blob)   (* absent at stat, ingested and verified; before rename *)
 | OPush3 (d : desc)              (* renamed; before graph.index *)
 | OPush4 (d : desc)              (* indexed, manifest; before the tag by digest *)
+| OTagIx (d : desc) (r : ref)    (* exists, manifest media type; before graph.Index(desc) *)
 | OTag2 (d : desc) (r : ref)     (* exists; before tagResolver.Tag(desc, digest) *)
 | OTag3 (d : desc) (r : ref)     (* before tagResolver.Tag(desc, reference) *)
 | OUntag2 (r : ref).             (* resolved and not its own digest; before tagResolver.Untag *)
@@ -52,8 +54,10 @@ Definition othread_step (others_idle : bool) (s : oci_store) (t : othread)
           | Tag d r =>
               match r with
               | REmpty => done
-              | _ => if is_some (get N.eqb (d_dig d) (o_blobs s))
-                     then Some (s, mkOT (if ref_eqb r (RDig (d_dig d)) then OTag3 d r else OTag2 d r) rest,
+              | _ => if foreign_digest_ref d r then done
+                     else if is_some (get N.eqb (d_dig d) (o_blobs s))
+                     then Some (s, mkOT (if is_manifest (d_mt d) then OTagIx d r
+                                         else if ref_eqb r (RDig (d_dig d)) then OTag3 d r else OTag2 d r) rest,
                                 [], [], None)
                      else done
               end
@@ -83,6 +87,13 @@ Definition othread_step (others_idle : bool) (s : oci_store) (t : othread)
       | Some c => Some (mkOci (o_blobs s) (o_res s) (g_index d (succ_of (gk d) c) (o_graph s)),
                         next, [], [gk d], None)
       | None => Some (s, mkOT OIdle (ot_ops t), [], [], None)
+      end
+  | OTagIx d r =>
+      let next := mkOT (if ref_eqb r (RDig (d_dig d)) then OTag3 d r else OTag2 d r) (ot_ops t) in
+      match get N.eqb (d_dig d) (o_blobs s) with
+      | Some c => Some (mkOci (o_blobs s) (o_res s) (g_index d (succ_of (gk d) c) (o_graph s)),
+                        next, [], [gk d], None)
+      | None => Some (s, mkOT OIdle (ot_ops t), [Tag d r], [], None)
       end
   | OPush4 d =>
       Some (mkOci (o_blobs s) (res_tag d (RDig (d_dig d)) (o_res s)) (o_graph s),
